@@ -127,6 +127,9 @@ def check_length(rep, mod, cfg, variant, two, size):
             len(rd), size * two, sorted(rd - want, key=str)[:3], sorted(want - rd, key=str)[:3]))
     if not bad and harness.helper_refutation(eff):
         bad.append(harness.helper_refutation(eff))
+    elif bad and harness.helper_refutation(eff):
+        rep.incomplete('sponge:' + tag, 'sponge-bounded', site, 'a helper computing on raw representations could not be summarised (not multilinear) and the digest misses the sponge with its interpolant in place')
+        return
     if bad:
         rep.refute('sponge:' + tag, 'sponge-bounded', site, '; '.join(bad[:3]))
     else:
